@@ -5,6 +5,7 @@
 -/
 import Gnet.Model.LB
 import Gnet.Proofs.LB
+import Gnet.Props.Handover
 namespace Gnet.Props.C15
 open Gnet
 
@@ -45,5 +46,18 @@ theorem rr_in_range (lb : LB) (hn : 0 < lb.size) : ∃ i lb', lb.rrNext = some (
 -- non-vacuity
 example : Proofs.LB.rrRun ⟨[0, 0, 0], 0⟩ 7 = [0, 1, 2, 0, 1, 2, 0] := by decide
 example : (⟨[3, 1, 2, 1], 0⟩ : LB).lcNext = some 1 := by decide
+
+/-- last clause of C15 ("the loop a connection is assigned to is the loop on which all of its callbacks run"),
+on the hand-over model: OnOpen runs at most once per descriptor and on the loop the balancer chose. -/
+theorem opened_on_assigned_loop (s : Handover.State) (h : Handover.Reachable s) :
+    (∀ p ∈ s.opened, p ∈ s.assigned) ∧ (s.opened.map Prod.fst).Nodup ∧ s.assigned.map Prod.fst = Handover.created s :=
+  Props.Handover.opened_on_assigned_loop s h
+
+/-- a loop that keeps running serves every registration handed to it -/
+theorem running_loop_serves (s : Handover.State) (l : Nat) (x : Handover.Loop) (hx : s.loops[l]? = some x) (hr : x.running = true)
+    (pre rest : List Handover.Task) (fd : Nat) (hq : x.queue = pre ++ Handover.Task.register fd :: rest)
+    (hns : Handover.Task.sentinel ∉ pre) :
+    (fd, l) ∈ (Handover.run s (List.replicate (pre.length + 1) (Handover.Step.exec l))).opened :=
+  Props.Handover.running_loop_serves s l x hx hr pre rest fd hq hns
 
 end Gnet.Props.C15
